@@ -19,7 +19,7 @@ from vplib.common import VERIF
 
 MANIFEST = dict(
     category="proof",
-    text="Coq theorems over a clause-by-clause model of std/num.qv (builtins with explicit error outcomes): reduce yields the canonical form and preserves the value in Q; add/sub/mul/div/neg/abs/compare and the predicates on integer/rational operands are exact w.r.t. QArith, keep the documented kind (int op int = int, otherwise canonical Rational; div always Rational, nil iff divisor 0); to_int/floor/ceil/round exact on rationals; nil in => nil out for every exported operation; no operation on well-formed operands (including surds) reaches integer_divide/modulo by zero or sqrt of a negative (never a runtime error); the square-free search terminates within its fuel and returns k,m with n = k^2 m, m square-free; surd add/sub/mul/div are exact in Q(sqrt n) (pairs with (a,b)(c,d) = (ac+bdn, ad+bc)), results in canonical build form, different radicals give nil; the surd sign is correct w.r.t. any ordered-field embedding containing a positive root of n (no Reals axioms). min/max/clamp on mixed radicals are REFUTED for the code as written (known finding F14). Validated, not proved: the model equals the real module (differential execution on every exported operation), literal desugaring, Fraction oracles and algebraic laws on the real outputs.",
+    text="Coq theorems (47, coq/theories/props/C20.v) over a clause-by-clause model of std/num.qv in which the integer builtins carry their error outcomes: reduce yields the canonical form (positive denominator, gcd 1) and preserves the value in Q, canonical forms are unique; add/sub/mul/div/neg/abs/numer/denom/compare/sign/eq?..ge?/min/max/clamp on integer and rational operands of any magnitude are exact w.r.t. QArith and keep the documented kind (int op int = int, any rational operand gives a canonical Rational, div always a canonical Rational and nil exactly when the divisor is 0); to_int/floor/ceil/round are exact on rationals (ties away from zero); commutativity, associativity, distributivity, x/x = 1, sub/add and div/mul inverses, totality/antisymmetry/transitivity of the order; nil in => nil out for every exported operation; NO exported operation on nil or well-formed integer/rational/surd operands returns an error (no integer_divide/modulo by 0, no sqrt of a negative, no fuel exhaustion: C20_never_errs); the square-free search terminates within its fuel with n = k^2 m, m square-free, and sqrt is the exact canonical root; surd add/sub/mul/div are exact in Q(sqrt n) (pairs, (a,b)(c,d) = (ac+bdn, ad+bc); division is the ring inverse, the norm of a non-zero element is non-zero by irrationality of sqrt n) with results in canonical build form; different radicals give nil for add/sub/mul/div/compare/predicates; the surd sign equals the squares-comparison function of the values (axiom-free) and that function is the sign of a + b sqrt n in Coq's Reals (2 theorems using the standard Reals axioms). REFUTED for the code as written: min/max/clamp on incompatible radicals return the first operand (known finding F14; the nil-propagating _fixed variants are proved). Validated, not proved: that the model equals the real module (differential execution of every exported operation through the real compiler+VM), literal desugaring, exact-Fraction oracles and algebraic laws on the real outputs; exactness of to_int/floor/ceil/round on SURD operands is only validated (their totality is proved).",
     design_ref="§5 C20",
     note="Trusted: Coq kernel, extraction (ExtrOcamlBasic), OCaml driver, Rust harness qv_eval, Python generators/oracles. The model follows the documented language semantics for blocks/patterns; the compiler itself is not modelled (finding F13 is a compiler defect surfacing through %num).",
     technique="Coq proof on a clause-by-clause model + model/code correspondence by differential execution + exact-arithmetic oracles on the real outputs",
@@ -792,7 +792,7 @@ def run(ctx):
     else:
         for l in corpus_lines("c20_cases.txt"):
             cases.append(l); origin.append("corpus")
-        ntuples = ctx.n(1500, 60000)
+        ntuples = ctx.n(3000, 36000)
         tuples = [gen_tuple(rng, hist_operand) for _ in range(ntuples)]
         for t in tuples:
             for op in UNARY:
@@ -808,7 +808,7 @@ def run(ctx):
             op2 = rng.choice(BINARY)
             cases.append(case_line(op2, [t[2], t[0]])); origin.append("gen")
             cases.append(case_line("clamp", t)); origin.append("gen")
-        for _ in range(ctx.n(1200, 40000)):
+        for _ in range(ctx.n(2000, 24000)):
             a = gen_sqrt_operand(rng)
             if sqrt_safe(a):
                 cases.append(case_line("sqrt", [a])); origin.append("gen-sqrt")
@@ -822,6 +822,7 @@ def run(ctx):
     impl, nprogs = run_impl(ctx, qe, cases, model)
 
     seen, nontrivial, disagreements, oracle_checked, oracle_failed = set(), 0, 0, 0, 0
+    agree, known_cases = 0, {"F13": 0, "F14": 0}
     res_hist = {"nil": 0, "int": 0, "rational": 0, "surd": 0, "Ok": 0, "err": 0}
     samples = []
     for i, c in enumerate(cases):
@@ -863,6 +864,8 @@ def run(ctx):
                     oracle_bad = "expected %s" % sorted(exp)
                 if oracle_bad is None and parsed is not None and parsed != "Ok" and not wf(parsed):
                     oracle_bad = "non-canonical result"
+        if got == model[i]:
+            agree += 1
         if oracle_bad:
             oracle_failed += 1
             key = None
@@ -870,6 +873,8 @@ def run(ctx):
                 key = "F13"
             elif op in F14_OPS and len(involved_radicals(args)) > 1 and got.startswith("(ok ") and parsed is not None:
                 key = "F14"
+            if key:
+                known_cases[key] += 1
             report({"kind": "impl-violation", "oracle": "exact Fraction arithmetic over Q(sqrt n): " + oracle_bad,
                     "case": c, "source": qv_call(op, args), "impl": got, "model": model[i]}, finding_key=key)
             continue
@@ -887,7 +892,7 @@ def run(ctx):
 
     # --- algebraic laws on the real module (composition of real calls), well-formed non-nil tuples
     law_src, law_meta = [], []
-    nlaw = ctx.n(500, 12000)
+    nlaw = ctx.n(1000, 8000)
     for t in tuples:
         if len(law_meta) >= nlaw * 11:
             break
@@ -924,7 +929,7 @@ def run(ctx):
     # --- literal desugaring: parser.rs reduce_rational vs Num.lit_reduce vs Fraction
     lits = [("1.50", 150, 100), ("6/4", 6, 4), ("-3/9", -3, 9), ("4/2", 4, 2), ("0.0", 0, 10), ("-0.0", 0, 10),
             ("0/5", 0, 5), ("1.0", 10, 10), ("-9/3", -9, 3), ("0.30", 30, 100), ("18446744073709551617/3", 2**64 + 1, 3)]
-    lits += [gen_literal(rng) for _ in range(ctx.n(600, 20000))]
+    lits += [gen_literal(rng) for _ in range(ctx.n(1000, 15000))]
     lit_src = []
     for k in range(0, len(lits), 20):
         chunk = lits[k:k + 20]
@@ -956,19 +961,21 @@ def run(ctx):
         "rule": "operand tuples (x, y, z) drawn per position from {small, huge > 2^64, negative, zero, nil} x {integer, canonical rational, single-radical surd (radical shared with prob. 0.8; small and > 2^64 square-free radicals)} plus 7% type-correct non-canonical operands (model/code comparison only); every exported operation is applied to each tuple; non-trivial = some operand is nil, a surd, or contains an integer beyond 2^64; distinct by SHA-1 of the case line",
         "samples": samples,
         "programs_run_on_real_module": nprogs + len(law_src) + len(lit_src) + 4,
-        "traces_validated_against_impl": len(cases) - disagreements - state["f13"],
+        "traces_validated_against_impl": agree,
         "disagreements_checked": disagreements,
         "oracle_checked_on_real_outputs": oracle_checked,
-        "oracle_failures": oracle_failed,
+        "oracle_failures_total": oracle_failed,
+        "oracle_failures_matching_known_findings": dict(known_cases),
+        "oracle_failures_unexplained": oracle_failed - known_cases["F13"] - known_cases["F14"],
         "law_evaluations": law_evals, "law_failures": law_fail, "per_law": law_hist,
         "literal_cases": len(lits), "literal_failures": lit_bad,
         "per_operation_cases": hist_op,
         "operand_class_histogram": dict(sorted(hist_operand.items())),
         "real_result_kinds": res_hist,
-        "known_finding_hits": {"F13": state["f13"], "F14": state["f14"]},
+        "known_finding_distinct_cases": {"F13": state["f13"], "F14": state["f14"]},
     })
     if not ok:
         ctx.violation({"kind": "theorem-broken", "theorem": getattr(ctx, "broken_theorem", "?"),
                        "searched": "%d differential cases, %d law evaluations on the real module: %d disagreements, %d oracle failures"
                                    % (len(cases), law_evals, disagreements, oracle_failed)},
-                      no_input=(disagreements == 0 and oracle_failed - state["f13"] - state["f14"] <= 0))
+                      no_input=(disagreements == 0 and oracle_failed - known_cases["F13"] - known_cases["F14"] <= 0))
